@@ -2335,6 +2335,44 @@ func (fv *FuncVerifier) runReturnedClosure(s *ast.ReturnStmt, lit *ast.FuncLit, 
 	fv.entry = savedEntry
 }
 
+// runArgClosures (pragma arg_closures): a function literal handed to an opaque call (a callback
+// registration such as observe.Observer.OnChange or wazero's WithFunc) is executed as it will be
+// later: captured variables keep their values, its parameters and every heap are arbitrary.
+// Assertions anchored inside the literal are the obligations; what the callee does with the
+// function value stays unmodelled.
+func (fv *FuncVerifier) runArgClosures(call *ast.CallExpr, st *State) {
+	if _, ok := fv.spec.Pragmas["arg_closures"]; !ok || fv.specMode != 0 || !fv.frame().top {
+		return
+	}
+	for _, a := range call.Args {
+		lit, isLit := ast.Unparen(a).(*ast.FuncLit)
+		if !isLit {
+			continue
+		}
+		cs := st.clone()
+		fv.havocAllHeaps(cs)
+		fv.checkAssertsInit()
+		sig := fv.frame().info.TypeOf(lit).(*types.Signature)
+		args := fv.havocResults(sig.Params(), cs)
+		for _, ab := range fv.spec.AssertsBefore {
+			if !ab.ClosureReq {
+				continue
+			}
+			savedE := fv.entry
+			fv.entry = cs
+			t := fv.evalClauseHere(ab.Clause, cs, lit.Pos())
+			fv.entry = savedE
+			cs.assume(t)
+		}
+		savedEntry := fv.entry
+		fv.entry = cs.clone()
+		fv.u.note("callback literal at %s executed from an arbitrary heap with arbitrary arguments (pragma arg_closures); when and how often the callee runs it is not modelled", fv.pos(lit.Pos()))
+		fv.cover(cs, fmt.Sprintf("callback-entry:%d", fv.prog.fset.Position(lit.Pos()).Line), boolT(true), "the callback's entry state is satisfiable")
+		fv.runClosureBody(lit, fv.frame(), args, cs)
+		fv.entry = savedEntry
+	}
+}
+
 func (fv *FuncVerifier) checkAssertsInit() {
 	if fv.anchorStmts != nil {
 		return
